@@ -31,7 +31,7 @@ m = {
     "hooks": {
         "guard": "cfg(kani)",
         "enable": "no source hooks are committed to /repo: each check copies /repo's working tree to a scratch directory and appends `#[cfg(kani)] #[path=\"/verif/kani/<x>_k.rs\"] mod verif_kani;` lines there (lib/kanirun.py instrument); cfg(kani) is set only by `cargo kani`",
-        "baseline_off_cmd": "cd /repo && cargo nextest run --workspace --no-fail-fast --test-threads 8 --offline || cargo test --workspace --no-fail-fast --offline",
+        "baseline_off_cmd": "cd /repo && (cargo nextest run --workspace --no-fail-fast --tool-config-file pb:/w/lib/nextest.toml --profile pb --test-threads 8 --offline || cargo test --workspace --no-fail-fast --offline)",
         "source_commits": [],
         "add_only": True,
     },
